@@ -157,6 +157,65 @@ FORMS3 = ["args", "tuple", "list", "args4", "tuple4", "list4", "args2", "tuple2"
           "set_args"]
 
 
+def fractional_pieces():
+    """Sexagesimal triples whose fractional minutes (or degrees) push a value to the seconds that lies 0 .. 1e-3
+    arcsecond from a whole second - where a 'clean the round-off' step would move the angle by up to 1e-8 degree."""
+    fm = []
+    for mi in (0, 26, 59):
+        for si in (0, 1, 29, 49, 59):
+            for dd in (0.0, 1e-6, -1e-6, 2e-5, -2e-5, 4.9e-5, -4.9e-5, 1e-3):
+                v = mi + (si + dd) / 60.0
+                if v >= 0:
+                    fm += [v, round(v, 6)]
+    fm = sorted(set(fm))
+    out = [(d, m, sec) for d in (0, 23, -23, 359) for m in fm for sec in (0, 12.5, 59.5)]
+    out += [(sg * (23 + m / 60.0), mm, sec) for sg in (1, -1) for m in fm[::3] for mm in (0, 26) for sec in (0, 12.5)]
+    return out
+
+
+# -- round(Angle, n): decimal ties that are not binary ties ---------------------------------------------------
+
+def rounding_cases():
+    """(x, n): x = +-(10 i + 5) / 10^(n+1) - the decimal written ...5 one place beyond the rounding position, whose
+    binary value lies just below or just above the tie - for n = 0 .. 6 and i < 20 000; and the 0.005-degree lattice
+    0 .. 360 for n = 0 .. 4."""
+    out = []
+    for n in range(0, 7):
+        for i in range(0, 20000):
+            x = (10 * i + 5) / 10.0 ** (n + 1)
+            if x < 360.0:
+                out += [(x, n), (-x, n)]
+    for k in range(0, 72000, 7):
+        for n in range(0, 5):
+            out.append((k * 0.005, n))
+    return out
+
+
+def check_rounding(case):
+    x, n = case["x"], case["n"]
+    try:
+        r = round(Angle(x), n)
+    except Exception as ex:
+        return [("exception", "round(Angle(%r), %d) raised %r" % (x, n, ex), None)]
+    exp = math.fmod(round(x, n), 360.0)     # correctly rounded (half-even on the exact binary value), reduced
+    if not isinstance(r, Angle) or r._deg != exp:
+        return [("round", "round(Angle(%r), %d) = %r, the value rounded to %d places is %r"
+                 % (x, n, getattr(r, "_deg", r), n, exp), abs(getattr(r, "_deg", 0.0) - exp))]
+    return []
+
+
+def run_rounding(block, ctx):
+    for x, n in block:
+        ctx.evals += 1
+        case = {"x": x, "n": n}
+        for site, msg, dev in check_rounding(case):
+            ctx.viol(case, msg, dev=dev, site=site)
+    ctx.nt_count += len(block)
+    ctx.outcome(block[0][1])
+    ctx.obs(block[0], block[-1])
+    ctx.sample({"x": block[0][0], "n": block[0][1]})
+
+
 def build3(form, d, m, s):
     neg = d < 0 or m < 0 or s < 0
     mag = abs(Fraction(d)) + abs(Fraction(m)) / 60 + abs(Fraction(s)) / 3600
@@ -702,6 +761,10 @@ def clauses(tier):
                lambda c: [m for _, m, _ in check_ctor1(c)], floor=300),
         Clause("sexagesimal", chunks(dms, 32), run_ctor3,
                lambda c: [m for _, m, _ in check_ctor3(c)], floor=3000),
+        Clause("sexagesimal_fractions", chunks(fractional_pieces(), 32), run_ctor3,
+               lambda c: [m for _, m, _ in check_ctor3(c)], floor=3000),
+        Clause("rounding", chunks(rounding_cases(), 2000), run_rounding,
+               lambda c: [m for _, m, _ in check_rounding(c)], floor=100000),
         Clause("operator_bfs", specs, run_bfs, replay_bfs, floor=5000, shape="H"),
         Clause("operand_tolerance", chunks(operand_tolerance_cases(), 8), run_operand_tolerance,
                check_operand_tolerance, floor=50, shape="H"),
